@@ -7,7 +7,7 @@ from concurrent.futures import ThreadPoolExecutor
 sys.path.insert(0, os.path.join(os.path.dirname(os.path.abspath(__file__)), "..", "lib"))
 import vlib
 
-FAMILIES = ["ws", "inl", "ctl", "attr", "call", "cf", "cfe", "deep"]
+FAMILIES = ["ws", "inl", "ctl", "attr", "call", "callh", "cf", "cfe", "deep"]
 
 
 def enumerate_programs(ck, plan, seed, module="MCTemplLang", cfgprefix="TemplLang", tag="PROG"):
@@ -91,5 +91,5 @@ def default_plan(tier):
     if tier == "thorough":
         return [(f, "bfs", None) for f in FAMILIES] + [("sim", "sim", 6000)]
     # quick: small exhaustive families + seeded simulation of every family
-    return [("ws", "bfs", 2), ("attr", "bfs", 1), ("inl", "bfs", 2), ("cf", "bfs", None), ("cfe", "bfs", None), ("call", "bfs", 3), ("deep", "bfs", None)] + \
-           [(f, "sim", 700) for f in FAMILIES if f not in ("cf", "cfe", "deep")] + [("sim", "sim", 1500)]
+    return [("ws", "bfs", 2), ("attr", "bfs", 1), ("inl", "bfs", 2), ("cf", "bfs", None), ("cfe", "bfs", None), ("call", "bfs", 3), ("callh", "bfs", None), ("deep", "bfs", None)] + \
+           [(f, "sim", 700) for f in FAMILIES if f not in ("cf", "cfe", "callh", "deep")] + [("sim", "sim", 1500)]
